@@ -7,6 +7,7 @@ def run(ctx, rep):
     runloop.r07h(ctx, rep)
     runloop.r07i(ctx, rep)
     runloop.r07j(ctx, rep)
+    runloop.r12s(ctx, rep, rule="R07k")
     runloop.r07b(ctx, rep)
     runloop.r07e(ctx, rep)
     runloop.r07f(ctx, rep)
